@@ -595,6 +595,20 @@ def guard_for_sub(E, body, site):
         if t["k"] != "switch" or not body.dominates(b, site.bb) or b == site.bb:
             continue
         e = strip_expr(body.expr(t["discr"]))
+        # `len(X) - 1` under `!X.is_empty()`
+        if c == 1 and xs[0] == "call" and xs[1].endswith("::len"):
+            neg = False
+            ee = e
+            if ee[0] == "unop" and ee[1] == "Not":
+                neg = True
+                ee = strip_expr(ee[2])
+            if ee[0] == "call" and ee[1].endswith("::is_empty") and \
+                    _norm_e(strip_expr(ee[2][0])) == _norm_e(strip_expr(xs[2][0])):
+                ft = bool_switch_true_target(body, b)
+                if ft:
+                    arm = ft[1] if neg else ft[0]
+                    if body.dominates(arm, site.bb):
+                        return "dominated by `!%s.is_empty()` (bb%d)" % (show(strip_expr(xs[2][0])), b)
         if e[0] != "binop" or e[1] not in ("Gt", "Ge", "Ne", "Eq", "Lt", "Le"):
             continue
         lhs, rhs = e[2], e[3]
